@@ -508,6 +508,9 @@ def dict_update(I, d, src, node):
 # -- iteration ------------------------------------------------------------------------
 
 def iterate(I, it, node):
+    if isinstance(it, tuple) and it and isinstance(it[0], str) and it[0] == 'items' and len(it) >= 3 \
+            and isinstance(it[1], list):
+        return it[1]
     it = concrete(it) if is_concrete(it) else it
     if isinstance(it, (tuple, list, range)):
         return list(it)
@@ -715,6 +718,63 @@ def format_percent(I, fmt, arg, node):
     return Unk('fmt', kinds=kf, taint=taint, src=('format', fmt, arg))
 
 
+def _bounds(u):
+    lo, hi = None, None
+    for f in u.facts:
+        if not isinstance(f, str):
+            continue
+        for op in ('>=', '<=', '>', '<'):
+            if f.startswith(op):
+                try:
+                    n = float(f[len(op):])
+                except ValueError:
+                    break
+                if op == '>=':
+                    lo = n if lo is None else max(lo, n)
+                elif op == '>':
+                    lo = n + 1 if lo is None else max(lo, n + 1)
+                elif op == '<=':
+                    hi = n if hi is None else min(hi, n)
+                elif op == '<':
+                    hi = n - 1 if hi is None else min(hi, n - 1)
+                break
+    return lo, hi
+
+
+def _decide_order(opn, l, r):
+    if isinstance(l, Unk) and not l.has_const and is_concrete(r) and isinstance(concrete(r), (int, float)) \
+            and l.only('int', 'bool'):
+        u, c, o = l, concrete(r), opn
+    elif isinstance(r, Unk) and not r.has_const and is_concrete(l) and isinstance(concrete(l), (int, float)) \
+            and r.only('int', 'bool'):
+        u, c = r, concrete(l)
+        o = {'Lt': 'Gt', 'LtE': 'GtE', 'Gt': 'Lt', 'GtE': 'LtE'}.get(opn)
+    else:
+        return None
+    lo, hi = _bounds(u)
+    if o == 'Lt':
+        if hi is not None and hi < c:
+            return True
+        if lo is not None and lo >= c:
+            return False
+    elif o == 'LtE':
+        if hi is not None and hi <= c:
+            return True
+        if lo is not None and lo > c:
+            return False
+    elif o == 'Gt':
+        if lo is not None and lo > c:
+            return True
+        if hi is not None and hi <= c:
+            return False
+    elif o == 'GtE':
+        if lo is not None and lo >= c:
+            return True
+        if hi is not None and hi < c:
+            return False
+    return None
+
+
 def compare(I, op, l, r, node):
     cl, cr = concrete(l), concrete(r)
     lc, rc = is_concrete(l), is_concrete(r)
@@ -834,7 +894,10 @@ def compare(I, op, l, r, node):
             if isinstance(l, AList) and isinstance(r, AList) and opn == 'Eq':
                 I.emit('list-eq', node, {'l': l, 'r': r})
         return Unk('cond', kinds=['bool'], taint=tj(l, r), src=('cond', lambda t: None))
-    # ordering comparisons on unknowns
+    # ordering comparisons on unknowns: decide from recorded bounds when possible
+    d = _decide_order(opn, l, r)
+    if d is not None:
+        return d
     for v in (l, r):
         k = kind_of(v)
         if isinstance(v, Unk) and not (k is not None and k <= {'int', 'bool', 'float'}):
